@@ -1,6 +1,7 @@
 package core
 
 import (
+	"html"
 	"io"
 )
 
@@ -15,5 +16,5 @@ func NewAnchor(name string) *Anchor {
 }
 
 func (c *Anchor) WriteHTMLTo(w io.Writer) (int64, error) {
-	return writeSprintf(w, `<a name="%s"/>`, c.name)
+	return writeSprintf(w, `<a name="%s"/>`, html.EscapeString(c.name))
 }
